@@ -135,7 +135,8 @@ def normalize_walked(ast):
 def hand_asts():
     v, s, i, c = A.var, A.string, A.integer, A.cap
     kw = ["something", "none_left", "format", "inner", "letter", "nodes", "elsewhere", "iffy", "forx", "scanner", "settle", "variant", "edgecase",
-          "attrs", "printer", "elifx", "in-side", "some", "none", "ifx", "global-ish", "inherited", "attribute-x"]
+          "attrs", "printer", "elifx", "in-side", "some", "none", "ifx", "global-ish", "inherited", "attribute-x",
+          "none2", "some9", "some-flag", "none-x", "some_", "none-", "somé", "none中", "some2thing"]
     files = []
     # 1: keyword-prefixed identifiers everywhere an identifier can occur
     stm = []
@@ -143,6 +144,9 @@ def hand_asts():
         stm.append(A.let(v(k), s("v-" + k)))
     stm.append(A.iff(([A.cond("bool", v("something"))], [A.node(v("nodes2"))]), ([A.cond("bool", v("none_left")), A.cond("some", v("some"))], [A.node(v("n3"))]),
                      ([], [A.node(v("elsewhere2"))])))
+    for k in kw:
+        if (k.startswith("some") or k.startswith("none")) and k not in ("some", "none"):    # the bare words are the keywords themselves
+            stm.append(A.iff(([A.cond("bool", v(k))], [A.node(v("c_" + k))]), ([A.cond("bool", A.true()), A.cond("bool", v(k))], [])))
     stm.append(A.forin("inner2", v("forx"), [A.node(v("n4"))]))
     stm.append(A.scan(v("scanner"), ("a", [A.let(v("letter2"), A.rcap(0))])))
     stm.append(A.attrn(v("nodes"), A.attr("format", v("format")), A.attr("in"), A.attr("if", i(1)), A.attr("some")))
@@ -206,7 +210,7 @@ def run(tier):
     cfg = "MCSyntax.cfg"
     if tier == "thorough":
         with open(os.path.join(C.SPEC, "MCSyntax.cfg")) as f:
-            txt = f.read().replace("NRandom = 3", "NRandom = 25").replace("SinglePer = 1", "SinglePer = 6").replace("NSingle = 4", "NSingle = 60")
+            txt = f.read().replace("NRandom = 3", "NRandom = 25").replace("SinglePer = 1", "SinglePer = 6").replace("NSingle = 4", "NSingle = 60").replace("Stride = 3", "Stride = 1")
         with open(os.path.join(C.SPEC, "MCSyntaxT.cfg"), "w") as f:
             f.write(txt)
         cfg = "MCSyntaxT.cfg"
